@@ -204,6 +204,14 @@ def run_race(case, scratch, extra_args=(), faults=None, instrument=None):
         return orig_summarize(results, cfg)
 
     patch(reporter, "summarize", summarize)
+    tr.benchmark_complete_sent_at = None
+    orig_obc = driver.DriverActor.on_benchmark_complete
+
+    def on_benchmark_complete(actor_self, m):
+        tr.benchmark_complete_sent_at = k.clock.now
+        return orig_obc(actor_self, m)
+
+    patch(driver.DriverActor, "on_benchmark_complete", on_benchmark_complete)
     c04_gen.ensure_registered(execharness.make_cfg(static_file))
     if instrument is not None:
         undo.append(instrument(k, tr))
